@@ -17,8 +17,11 @@ EXTENDS Integers, Sequences, FiniteSets, Json, TLC
 Q  == 39   \* '
 BS == 92   \* \
 
-(* digit characters used in enumerated escapes: 0 1 3 7 8 9 a f A F D d *)
-HexDigitChars == {48, 49, 51, 55, 56, 57, 97, 102, 65, 70, 68, 100}
+CONSTANT FullDigits   \* TRUE: every hexadecimal digit in both cases in \x and \u escapes
+
+(* digit characters used in enumerated escapes: 0 1 3 7 8 9 a f A F D d, or all of them *)
+HexDigitChars == IF FullDigits THEN (48..57) \cup (97..102) \cup (65..70)
+                 ELSE {48, 49, 51, 55, 56, 57, 97, 102, 65, 70, 68, 100}
 OctDigitChars == {48, 49, 51, 55}
 
 DigitVal(c) == IF c >= 48 /\ c <= 57 THEN c - 48
@@ -81,9 +84,11 @@ GoccValue(lit) ==
 Wrap(body) == <<Q>> \o body \o <<Q>>
 Plain == {Wrap(<<c>>) : c \in (32..126) \ {Q, BS}}
 NamedLits == {Wrap(<<BS, c>>) : c \in DOMAIN Named}
-OctLits == {Wrap(<<BS, a, b, c>>) : a \in {48, 49, 51}, b \in OctDigitChars, c \in OctDigitChars}
+OctLits == {Wrap(<<BS, a, b, c>>) : a \in (IF FullDigits THEN 48..51 ELSE {48, 49, 51}),
+                                    b \in (IF FullDigits THEN 48..55 ELSE OctDigitChars), c \in (IF FullDigits THEN 48..55 ELSE OctDigitChars)}
 HexLits == {Wrap(<<BS, 120, a, b>>) : a \in HexDigitChars, b \in HexDigitChars}
-ULits == {Wrap(<<BS, 117, a, b, c, d>>) : a \in HexDigitChars, b \in HexDigitChars, c \in {48, 55, 56, 70, 102}, d \in {48, 70, 102, 68}}
+ULits == {Wrap(<<BS, 117, a, b, c, d>>) : a \in HexDigitChars, b \in HexDigitChars,
+                                          c \in (IF FullDigits THEN HexDigitChars ELSE {48, 55, 56, 70, 102}), d \in {48, 70, 102, 68}}
 BigULits == {Wrap(<<BS, 85, 48, 48, a, b, c, d, e, f>>) :
                a \in {48, 49}, b \in {48, 70, 102}, c \in {48, 68, 100, 70}, d \in {55, 56, 70, 48}, e \in {48, 70}, f \in {48, 70, 102}}
 
